@@ -3,7 +3,7 @@ from props import _auto
 
 LEAN_MODULES = _auto.lean_modules("C09")
 VARIANTS = ['default']
-RULE = 'all MAC/legacy digest types x histories to depth 4 (quick) / 6 (thorough) over {input, result, raw_result, reset, clone} incl. repeated results and block-multiple messages; non-trivial = history contains data; distinct = distinct case lines'
+RULE = 'all 21 MAC/legacy digest types: EVERY history to depth 4 over {input, result, raw_result, reset} for every HMAC type (objects are not Clone) and over {input, result, raw_result, reset, clone, swap} for every legacy digest type and the keyed BLAKE2 MACs (thorough: depth 5 without the clone letters for one type per engine family), directed repeated-result / block-multiple histories, re-keying transitions, random histories to depth 4 (quick) / 6 (thorough); non-trivial = history contains data; distinct = distinct case lines'
 TRUSTED = ["hand-written Lean models (lean/CxVerif/Impl, Spec) tied to the code by the correspondence run and by tables re-extracted from /repo/src"]
 ASSUMPTIONS = ['length guards of the underlying hash/MAC as in C01/C05; `clone` independence is a correspondence obligation']
 gen = _auto.make_gen("C09")
